@@ -49,7 +49,7 @@ func TestC08MainWiring(t *testing.T) {
 		if tlsHdr != "" {
 			args = append(args, "-proxy.header.tls", tlsHdr, "-proxy.header.tls.value", tlsVal)
 		}
-		ipHdr := rapid.SampledFrom([]string{"", "X-Client-Ip", "Cf-Connecting-Ip"}).Draw(t, "proxy.header.clientip")
+		ipHdr := rapid.SampledFrom([]string{"", "X-Client-Ip", "Cf-Connecting-Ip", "X-Forwarded-For", "X-Real-Ip", "x-forwarded-for"}).Draw(t, "proxy.header.clientip")
 		if ipHdr != "" {
 			args = append(args, "-proxy.header.clientip", ipHdr)
 		}
@@ -79,6 +79,16 @@ func TestC08MainWiring(t *testing.T) {
 			}
 			if ipHdr != "" && rapid.Bool().Draw(t, "forge-ip-header") {
 				forged[ipHdr] = "6.6.6.6"
+			}
+			chain := ""
+			if rapid.IntRange(0, 2).Draw(t, "client-sends-x-forwarded-for") == 0 {
+				// an earlier hop's chain: it is kept, the peer is appended
+				chain = rapid.SampledFrom([]string{"3.3.3.3", "3.3.3.3, 4.4.4.4"}).Draw(t, "xff-chain")
+				forged["X-Forwarded-For"] = chain
+				if http.CanonicalHeaderKey(ipHdr) == "X-Forwarded-For" {
+					delete(forged, ipHdr)
+					forged["X-Forwarded-For"] = chain
+				}
 			}
 			if rapid.IntRange(0, 3).Draw(t, "forge-sts") == 0 {
 				forged["Strict-Transport-Security"] = "max-age=1"
@@ -144,7 +154,22 @@ func TestC08MainWiring(t *testing.T) {
 					t.Fatalf("plain connection: header %s = %q reached the upstream\n%s", tlsHdr, vals, ctx)
 				}
 			}
-			if ipHdr != "" {
+			// X-Forwarded-For: what the client sent, then the peer - also when that header is the one
+			// named as proxy.header.clientip
+			// (when X-Forwarded-For itself is named as the client-IP header the statement's two clauses -
+			// "overwritten with the peer" and "the peer is appended" - pull in different directions;
+			// nothing is demanded of the chain then)
+			if c := forged["X-Forwarded-For"]; c != "" {
+				chain = c
+			}
+			wantXFF := "127.0.0.1"
+			if chain != "" {
+				wantXFF = chain + ", 127.0.0.1"
+			}
+			if v := strings.Join(got.Values("X-Forwarded-For"), ", "); v != wantXFF && http.CanonicalHeaderKey(ipHdr) != "X-Forwarded-For" {
+				t.Fatalf("X-Forwarded-For = %q at the upstream, want %q\n%s", v, wantXFF, ctx)
+			}
+			if c := http.CanonicalHeaderKey(ipHdr); ipHdr != "" && c != "X-Forwarded-For" && !(c == "X-Real-Ip" && forged[ipHdr] != "") {
 				if vals := got.Values(ipHdr); len(vals) != 1 || vals[0] != "127.0.0.1" {
 					t.Fatalf("client-IP header %s = %q at the upstream, want the peer address 127.0.0.1\n%s", ipHdr, vals, ctx)
 				}
